@@ -6,7 +6,7 @@
 set -u
 P=$1; WT=$2; I=$3; shift 3
 export GOFLAGS=-mod=mod GOPROXY=off
-OUT=/verif/seeded/$P-$I
+N=$((I+${SEED_OFF:-0})); OUT=/verif/seeded/$P-$N
 mkdir -p $OUT
 cp $WT/seed_out/change$I.diff $OUT/patch.diff
 cp -r $WT/seed_out/demo$I $OUT/demo
@@ -17,20 +17,20 @@ git -C $WT apply $OUT/patch.diff || { echo "PATCH DOES NOT APPLY"; exit 1; }
 bu=$(cd $WT && go build ./pkg/... 2>&1 | tail -3; echo "rc=${PIPESTATUS[0]}")
 ch=$(cd $WT && timeout 900 go run ./seed_out/demo$I 2>&1 | tail -3; echo "rc=${PIPESTATUS[0]}")
 bl=$(cd /verif && VERIF_REPO=$WT ./baseline_off.sh 2>&1 | tail -2)
-echo "== $P-$I pristine demo: $(echo $pr | tr '\n' ' ' | cut -c1-200)"
-echo "== $P-$I build with change: $(echo $bu | tr '\n' ' ')"
-echo "== $P-$I changed demo: $(echo $ch | tr '\n' ' ' | cut -c1-300)"
-echo "== $P-$I pinned suite with change: $bl"
+echo "== $P-$N pristine demo: $(echo $pr | tr '\n' ' ' | cut -c1-200)"
+echo "== $P-$N build with change: $(echo $bu | tr '\n' ' ')"
+echo "== $P-$N changed demo: $(echo $ch | tr '\n' ' ' | cut -c1-300)"
+echo "== $P-$N pinned suite with change: $bl"
 res=""
 for id in "$@"; do
   out=$(cd /verif && VERIF_REPO=$WT VERIF_NO_EVIDENCE=1 ./check $id ${SEED_TIER:-quick} 2>&1)
   rc=$?
   sigs=$(echo "$out" | grep 'signature:' | sed 's/ *signature: //' | tr '\n' ' ' | cut -c1-400)
-  echo "== $P-$I / $id: exit=$rc signatures: $sigs"
+  echo "== $P-$N / $id: exit=$rc signatures: $sigs"
   res="$res {\"check\":\"$id\",\"exit\":$rc,\"signatures\":\"$sigs\"},"
 done
 git -C $WT checkout -q -- .
-python3 - "$OUT" "$P" "$I" "$pr" "$ch" "$bl" "$res" <<'PY'
+python3 - "$OUT" "$P" "$N" "$pr" "$ch" "$bl" "$res" <<'PY'
 import json,sys,os
 out,p,i,pr,ch,bl,res=sys.argv[1:8]
 am={}
